@@ -281,7 +281,7 @@ def run_shard(ctx):
         if ctx.time_left() < -180:
             ctx.inconc("time budget exhausted before the pair enumeration finished")
             break
-        cap = {"xsi": ctx.pick(300, 400), "nsmap": ctx.pick(100, 250)}.get(g, ctx.pick(200, 250))  # (thorough: all ordered pairs of all operations, so smaller caps per pair)
+        cap = {"xsi": ctx.pick(300, 160), "nsmap": ctx.pick(100, 100)}.get(g, ctx.pick(200, 110))  # (thorough: all 676 ordered pairs of all operations in 5 groups instead of 64 pairs in 4, so smaller caps per pair; the counters pairs_complete_to_<d>_preemptions say what was enumerated completely)
         controlled_pair(ctx, a, b, g, 3, exp, max_runs=cap)
     n_pct = ctx.per_shard(ctx.pick(250, 6000))
     for _ in range(n_pct):
